@@ -101,6 +101,16 @@ func (c *fileCtx) add(pos token.Pos, kind string, afterBrace bool) {
 	c.ins = append(c.ins, insertion{off: off, text: fmt.Sprintf(" %s(%d); ", c.call, id)})
 }
 
+// loopTick inserts the iteration counter at the top of a loop body: a run that spins (a loop that never
+// ends and never blocks) is stopped by the kernel after a fixed number of iterations, deterministically.
+func (c *fileCtx) loopTick(body *ast.BlockStmt) {
+	if body == nil {
+		return
+	}
+	tick := strings.Replace(c.call, "VerifY", "VerifL", 1)
+	c.ins = append(c.ins, insertion{off: c.file.Offset(body.Lbrace) + 1, text: fmt.Sprintf(" %s(); ", tick)})
+}
+
 func (c *fileCtx) stmtList(list []ast.Stmt) {
 	for _, s := range list {
 		c.stmt(s, true)
@@ -150,6 +160,7 @@ func (c *fileCtx) stmt(s ast.Stmt, mayInsert bool) {
 			c.stmt(v.Else, false)
 		}
 	case *ast.ForStmt:
+		c.loopTick(v.Body)
 		k := syncKind(v.Init)
 		if k != "" && mayInsert {
 			c.add(s.Pos(), k, false)
@@ -163,6 +174,7 @@ func (c *fileCtx) stmt(s ast.Stmt, mayInsert bool) {
 		}
 		c.stmt(v.Body, true)
 	case *ast.RangeStmt:
+		c.loopTick(v.Body)
 		if k := syncKind(v.X); k != "" {
 			c.add(v.Body.Lbrace, k, true)
 		} else if id, ok := v.X.(*ast.SelectorExpr); ok && id.Sel.Name == "C" {
